@@ -14,8 +14,11 @@ from mdsa.astutil import call_attr, call_recv, kwarg, local_calls, norm, store_t
 from mdsa.cfg import walk_local
 from mdsa.loader import AnalysisError
 
+from mdsa import match as M
+
 from . import c07
 from .common import Ctx, local_defs, node_of
+from .sem import F
 from .tocmodel import I, r_links_register, r_loader_agreement, r_schema_register
 from .wrapmodel import W, factory_call_info, is_raw_expr
 
@@ -66,35 +69,59 @@ def _r6(P, rep, ctx):
     rep.rule_counts["C06.R6"] = rep.rule_counts.get("C06.R6", 0) + rep.rule_counts.pop("C07.R1", 0)
 
 
+LINKS = "self._mc.metador._links"
+RAWG = ("self.__wrapped__", "self._self_raw", "self._raw")
+
+
+def _loop_always(f: "F", loop_idx: int, nodes, edges=()) -> bool:
+    """every iteration of the loop (from its body entry back to the loop head) passes one of nodes / takes one of edges"""
+    return f.hit_before(loop_idx, nodes=nodes, edges=edges, src_edge=(loop_idx, "iter"))
+
+
 def r1_pairing(P, rep, ctx):
     MM = f"{I}.MetadorMeta"
     fi = P.func(f"{MM}._set_raw")
-    g = ctx.cfg(fi)
-    store = [n.idx for n in g.nodes if n.kind == "stmt" and isinstance(n.stmt, ast.Assign) and any(norm(t) == "self._mc.__wrapped__[obj_path]" for t in n.stmt.targets)]
-    reg = [n.idx for n in g.nodes if any(norm(c.func) == "self._mc.metador._links.register" for c in g.calls(n.idx))]
-    ok = bool(store) and bool(reg) and all(g.every_path_passes(reg, g.exit, src=s) for s in store) and all(g.every_path_passes(store, r) for r in reg)
+    f = F(ctx, fi)
+    g = f.g
+    sref, obj = fi.params[1], fi.params[2]
+    st = [(i, v, b) for i, v, b in f.stores("self._mc.__wrapped__[__p]") if f.x(v) == f"bytes({obj})"]
+    store = [i for i, v, b in st]
+    regs = f.call_sites(f"{LINKS}.register(__o)")
+    reg = [i for i, c, b in regs]
+    ok = bool(store) and bool(reg) and all(f.hit_before(g.exit, nodes=reg, src=s_) for s_ in store) and f.all_hit_before(reg, nodes=store)
     rep.check(ok, "C06.R1", fi.qual, "every stored object is registered in the TOC before _set_raw returns", fi.loc(), construct="register after store", message="_set_raw can return without registering the stored object in the TOC (object without link)")
-    for r in reg:
-        for c in g.calls(r):
-            if call_attr(c) == "register":
-                a = norm(c.args[0])
-                d = [norm(v) for k, v in local_defs(fi).get(a, []) if v is not None]
-                rep.check(d == ["StoredMetadata(uuid=obj_uuid, schema=schema_ref, node=obj_node)"], "C06.R1", fi.qual, "the registered record carries the object's uuid, schema and node", fi.loc(c), construct=f"registered object {d}", message=f"_set_raw registers {d}")
-    rep.check("obj_uuid = self._mc.metador._links.fresh_uuid()" in norm(fi.node), "C06.R1", fi.qual, "a fresh (unused) uuid is reserved for the object", fi.loc(), construct="fresh uuid", message="_set_raw does not reserve a fresh uuid from the TOC")
-    fu = P.func(f"{I}.TOCLinks.fresh_uuid")
-    t = norm(fu.node)
-    rep.check("fresh = ret not in self._toc_path" in t and "self._toc_path[ret] = None" in t and "while not fresh" in t, "C06.R1", fu.qual, "fresh_uuid retries until unused and reserves the uuid", fu.loc(), construct="fresh_uuid", message="fresh_uuid does not guarantee an unused, reserved uuid")
-    idx = [n.idx for n in g.nodes if n.kind == "stmt" and norm(n.stmt) == "self._objs[schema_ref.name] = stored_obj"]
-    rep.check(bool(idx) and g.every_path_passes(idx, g.exit), "C06.R1", fi.qual, "the node's in-memory object table records the stored object", fi.loc(), construct="_objs update in _set_raw", message="_set_raw does not record the object in _objs: a second object of the same schema is then accepted on this view")
+    spath = {f.x(b["__p"]) for i, v, b in st}
+    for i, c, b in regs:
+        m = M.match("StoredMetadata(uuid=__u, schema=__s, node=__n)", f.xe(b["__o"]))
+        okr = m is not None and f.x(m["__u"]) == f"{LINKS}.fresh_uuid()" and f.x(m["__s"]) == sref and len(spath) == 1 and f.x(m["__n"]) == f"self._mc.__wrapped__[{next(iter(spath))}]"
+        rep.check(okr, "C06.R1", fi.qual, "the registered record carries the object's uuid, schema and node", fi.loc(c), construct="registered object", message=f"_set_raw registers {f.x(b['__o'])[:120]}")
+    fu_calls = [c for c in local_calls(fi.node) if M.match(f"{LINKS}.fresh_uuid()", c) is not None]
+    rep.check(len(fu_calls) == 1 and len(spath) == 1 and f"{LINKS}.fresh_uuid()" in next(iter(spath)), "C06.R1", fi.qual, "a fresh (unused) uuid is reserved for the object", fi.loc(), construct="fresh uuid", message="_set_raw does not reserve a fresh uuid from the TOC")
+    fu = F(ctx, P.func(f"{I}.TOCLinks.fresh_uuid"))
+    rets = [(i, v) for i, v in fu.returns() if v is not None]
+    okf = bool(rets) and all(isinstance(v, ast.Name) for i, v in rets)
+    if okf:
+        rv = rets[0][1].id
+        reserve = [i for i, v, b in fu.stores(f"self._toc_path[{rv}]")]
+        probes = [x for x in walk_local(fu.fi.node) if isinstance(x, ast.Compare) and M.polarity(x)[0] is not None and M.match(f"{rv} in self._toc_path", M.polarity(x)[0]) is not None]
+        loops = [n.idx for n in fu.g.nodes if n.kind == "loop"]
+        gens = [i for i, v, b in fu.stores(rv)] + [n.idx for n in fu.g.nodes if n.kind == "stmt" and isinstance(n.stmt, (ast.Assign, ast.AnnAssign)) and any(isinstance(t, ast.Name) and t.id == rv for t in (n.stmt.targets if isinstance(n.stmt, ast.Assign) else [n.stmt.target])) and getattr(n.stmt, "value", None) is not None]
+        okf = bool(reserve) and bool(probes) and bool(loops) and bool(gens) and all(fu.hit_before(i, nodes=reserve) for i, v in rets)
+    rep.check(okf, "C06.R1", fu.fi.qual, "fresh_uuid retries until unused and reserves the uuid", fu.fi.loc(), construct="fresh_uuid", message="fresh_uuid does not guarantee an unused, reserved uuid")
+    idx = [i for i, v, b in f.stores("self._objs[__k]") if f.x(b["__k"]) == f"{sref}.name" and M.match("StoredMetadata(___)", f.xe(v)) is not None]
+    rep.check(bool(idx) and f.hit_before(g.exit, nodes=idx), "C06.R1", fi.qual, "the node's in-memory object table records the stored object", fi.loc(), construct="_objs update in _set_raw", message="_set_raw does not record the object in _objs: a second object of the same schema is then accepted on this view")
     fi = P.func(f"{MM}._del_raw")
-    g = ctx.cfg(fi)
-    tests = [t for t in g.nodes if t.kind == "test" and norm(t.exprs[0]) == "_unlink"]
-    unr = [n.idx for n in g.nodes if any(norm(c.func) == "self._mc.metador._links.unregister" and norm(c.args[0]) == "stored_obj.uuid" for c in g.calls(n.idx))]
-    dels = [n.idx for n in g.nodes if n.kind == "stmt" and isinstance(n.stmt, ast.Delete)]
-    ok = bool(tests) and bool(unr) and all(g.every_path_passes(unr, g.exit, src=t.idx, src_label="T") for t in tests) and g.every_path_passes([t.idx for t in tests], g.exit)
+    f = F(ctx, fi)
+    g = f.g
+    sn = fi.params[1]
+    unlink = f.tests("_unlink")
+    unr = [i for i, c, b in f.call_sites(f"{LINKS}.unregister(__u)") if f.x(b["__u"]) == f"self._objs[{sn}].uuid"]
+    ok = bool(unlink) and bool(unr) and f.hit_before(g.exit, nodes=unr, edges=f.neg(unlink))
     rep.check(ok, "C06.R1", fi.qual, "deleting an object unregisters its link unless _unlink is False", fi.loc(), construct="unregister in _del_raw", message="_del_raw can delete a metadata object without unregistering its TOC link (dangling link)")
-    t = norm(fi.node)
-    rep.check("del self._objs[stored_obj.schema.name]" in t and "del self._mc.__wrapped__[stored_obj.node.name]" in t, "C06.R1", fi.qual, "the object is removed from the index and from the container", fi.loc(), construct="object removal", message="_del_raw does not remove the object node and its index entry")
+    d1 = [i for i in f.deletes("self._objs[__k]") ] + f.calls("self._objs.pop(___)")
+    d2 = [i for i in f.deletes("self._mc.__wrapped__[__n]") if True]
+    d2x = [n for n in d2 if any(f.x(t.slice) == f"self._objs[{sn}].node.name" for t in g.nodes[n].stmt.targets if isinstance(t, ast.Subscript))]
+    rep.check(bool(d1) and bool(d2x) and f.hit_before(g.exit, nodes=d1) and f.hit_before(g.exit, nodes=d2x), "C06.R1", fi.qual, "the object is removed from the index and from the container", fi.loc(), construct="object removal", message="_del_raw does not remove the object node and its index entry")
     sig = fi.node.args
     dfl = {a.arg: norm(d) for a, d in zip(sig.kwonlyargs, sig.kw_defaults) if d is not None}
     rep.check(dfl.get("_unlink") == "True", "C06.R1", fi.qual, "_unlink defaults to True", fi.loc(), construct="_unlink default", message=f"_del_raw's _unlink defaults to {dfl.get('_unlink')}")
@@ -102,148 +129,230 @@ def r1_pairing(P, rep, ctx):
     targets = {"_del_raw", "_destroy", "_destroy_meta"}
     n_thread = 0
     literal_false = []
-    for f in P.functions.values():
-        if f.module.name not in (I, W):
+    for fn in P.functions.values():
+        if fn.module.name not in (I, W):
             continue
-        has_param = "_unlink" in f.params
-        for c in local_calls(f.node):
+        has_param = "_unlink" in fn.params
+        for c in local_calls(fn.node):
             if call_attr(c) not in targets:
                 continue
             kw = kwarg(c, "_unlink")
             if has_param:
                 n_thread += 1
-                rep.check(kw is not None and norm(kw) == "_unlink", "C06.R1", f.qual, f"{call_attr(c)} is called with the caller's _unlink switch", f.loc(c), construct=norm(c),
-                          message=f"{f.qual} takes `_unlink` but calls {norm(c)} without passing it on: a data-only group copy (without_meta=True) then unregisters the TOC links of the *original* nested objects")
+                rep.check(kw is not None and norm(kw) == "_unlink", "C06.R1", fn.qual, f"{call_attr(c)} is called with the caller's _unlink switch", fn.loc(c), construct=norm(c),
+                          message=f"{fn.qual} takes `_unlink` but calls {norm(c)} without passing it on: a data-only group copy (without_meta=True) then unregisters the TOC links of the *original* nested objects")
             elif kw is not None and norm(kw) != "True":
-                literal_false.append((f, c))
+                literal_false.append((fn, c))
     if n_thread < 3:
         raise AnalysisError(f"C06.R1: only {n_thread} threaded _unlink calls found")
-    for f, c in literal_false:
-        ok = f.qual == f"{W}.MetadorGroup.copy"
+    for fn, c in literal_false:
+        ok = fn.qual == f"{W}.MetadorGroup.copy"
         if ok:
-            g = ctx.cfg(f)
-            site = node_of(g, c)
-            tests = [t.idx for t in g.nodes if t.kind == "test" and norm(t.exprs[0]) == "without_meta"]
-            ok = site is not None and any(g.edge_dominates(t, "T", site) for t in tests)
-        rep.check(ok, "C06.R1", f.qual, "metadata is destroyed without unlinking only for copy(..., without_meta=True)", f.loc(c), construct=norm(c), message=f"{norm(c)} in {f.qual}: links are kept although objects are deleted outside the copy-without-metadata case")
+            ff = F(ctx, fn)
+            site = node_of(ff.g, c)
+            wm = ff.tests("without_meta", "kwargs.pop('without_meta', False)")
+            ok = site is not None and bool(wm) and ff.hit_before(site, edges=wm)
+        rep.check(ok, "C06.R1", fn.qual, "metadata is destroyed without unlinking only for copy(..., without_meta=True)", fn.loc(c), construct=norm(c), message=f"{norm(c)} in {fn.qual}: links are kept although objects are deleted outside the copy-without-metadata case")
     rep.check(len(literal_false) == 1, "C06.R1", f"{W}.MetadorGroup.copy", "exactly one origin of _unlink=False", "", construct="origins of _unlink=False", message=f"{len(literal_false)} call sites pass a non-True _unlink")
     # unregister
     fi = P.func(f"{I}.TOCLinks.unregister")
-    g = ctx.cfg(fi)
-    t = norm(fi.node)
-    dl = [n.idx for n in g.nodes if n.kind == "stmt" and norm(n.stmt) == "del self._raw[toc_path]"]
-    di = [n.idx for n in g.nodes if n.kind == "stmt" and norm(n.stmt) == "del self._toc_path[uuid]"]
-    rep.check(bool(dl) and bool(di) and g.every_path_passes(dl, g.exit) and g.every_path_passes(di, g.exit), "C06.R1", fi.qual, "unregister deletes the link node and frees the uuid on every path", fi.loc(), construct="link delete", message="unregister does not delete the link node and the uuid index entry on every path")
-    sch = [n.idx for n in g.nodes if any(norm(c.func) == "self._toc_schemas._unregister" for c in g.calls(n.idx))]
-    tests = [x for x in g.nodes if x.kind == "test" and norm(x.exprs[0]) == "len(schema_group)"]
-    ok = bool(sch) and bool(tests) and all(g.every_path_passes(sch, g.exit, src=x.idx, src_label="F") for x in tests) and all(any(g.edge_dominates(x.idx, "F", s) for x in tests) for s in sch)
+    f = F(ctx, fi)
+    g = f.g
+    u = fi.params[1]
+    TOC = f"self._toc_path[{u}]"
+    SG = f"self._raw[{TOC}].parent"
+    dl = f.deletes(f"self._raw[{TOC}]")
+    di = f.deletes(TOC) + f.calls(f"self._toc_path.pop({u}, ___)")
+    rep.check(bool(dl) and bool(di) and f.hit_before(g.exit, nodes=dl) and f.hit_before(g.exit, nodes=di), "C06.R1", fi.qual, "unregister deletes the link node and frees the uuid on every path", fi.loc(), construct="link delete", message="unregister does not delete the link node and the uuid index entry on every path")
+    schs = f.call_sites("self._toc_schemas._unregister(__r)")
+    sch = [i for i, c, b in schs]
+    nonempty = f.tests(f"len({SG})", f"len({SG}.keys())", f"{SG}.keys()")
+    ok = bool(sch) and bool(nonempty) and f.all_hit_before(sch, edges=f.neg(nonempty)) and f.all_hit_before(sch, nodes=dl) and all(f.hit_before(g.exit, nodes=sch, src_edge=e) for e in f.neg(nonempty)) and f.hit_before(g.exit, nodes=f.test_nodes(nonempty))
     rep.check(ok, "C06.R1", fi.qual, "when the last link of a schema is removed the schema record is unregistered (and only then)", fi.loc(), construct="schema unregistration", message="unregister does not notify the schema manager exactly when the schema's link group became empty")
-    rep.check("self._toc_schemas._unregister(_schema_ref_for(s_name_vers))" in t and "s_name_vers: str = schema_group.name.split('/')[-1]" in t, "C06.R1", fi.qual, "the unregistered schema is the one named by the link group", fi.loc(), construct="schema ref of group", message="unregister derives the schema reference differently from the link group name")
-    su = P.func(f"{I}.TOCSchemas._unregister")
-    g = ctx.cfg(su)
-    lp = [n for n in g.nodes if n.kind == "for" and norm(n.stmt.iter) == "providers"]
-    rmv = [n.idx for n in g.nodes if n.kind == "stmt" and norm(n.stmt) == "pkg_used.remove(schema_ref)"]
-    ut = [t.idx for t in g.nodes if t.kind == "test" and norm(t.exprs[0]) == "schema_ref in pkg_used"]
-    et = [t.idx for t in g.nodes if t.kind == "test" and norm(t.exprs[0]) in ("not len(pkg_used)", "not pkg_used", "len(pkg_used) == 0")]
-    pu = [n.idx for n in g.nodes if n.kind == "stmt" and norm(n.stmt) == "self._pkgs._unregister(pkg)"]
-    ok = len(lp) == 1 and bool(rmv) and bool(ut) and bool(et) and bool(pu) and all(g.every_path_passes(rmv, lp[0].idx, src=t, src_label="T") for t in ut) and g.every_path_passes(et, lp[0].idx, src=lp[0].idx, src_label="iter") and all(g.every_path_passes(pu, lp[0].idx, src=t, src_label="T") for t in et) and all(any(g.edge_dominates(t, "T", x) for t in et) for x in pu) and all(g.every_path_passes(ut, e) for e in et)
-    rep.check(ok, "C06.R1", su.qual, "for every providing package the schema is removed from its use set and the package record is dropped exactly when that set becomes empty", su.loc(), construct="package use counting in _unregister",
+    rep.check(bool(schs) and all(f.x(b["__r"]) == f"_schema_ref_for({SG}.name.split('/')[-1])" for i, c, b in schs), "C06.R1", fi.qual, "the unregistered schema is the one named by the link group", fi.loc(), construct="schema ref of group", message="unregister derives the schema reference differently from the link group name")
+    sfi = P.func(f"{I}.TOCSchemas._unregister")
+    su = F(ctx, sfi)
+    g = su.g
+    sr = sfi.params[1]
+    lp = [n for n in g.nodes if n.kind == "for" and su.x(n.stmt.iter) in (f"set(self._pkgs._providers[{sr}])", f"list(self._pkgs._providers[{sr}])", f"tuple(self._pkgs._providers[{sr}])", f"self._pkgs._providers[{sr}].copy()") and isinstance(n.stmt.target, ast.Name)]
+    ok = len(lp) == 1
+    if ok:
+        L = lp[0].idx
+        pk = lp[0].stmt.target.id
+        U = f"self._used[{pk}]"
+        rmv = su.calls(f"{U}.remove({sr})", f"{U}.discard({sr})")
+        used = su.tests(f"{sr} in {U}")
+        empty = su.tests(f"not len({U})", f"not {U}")
+        pu = su.calls(f"self._pkgs._unregister({pk})")
+        ok = (bool(rmv) and bool(empty) and bool(pu)
+              and _loop_always(su, L, rmv, su.neg(used))  # decremented on every iteration (unless not in the set)
+              and _loop_always(su, L, su.test_nodes(empty))  # emptiness looked at on every iteration
+              and all(su.hit_before(t, nodes=rmv, edges=su.neg(used), src_edge=(L, "iter")) for t in su.test_nodes(empty))  # after the decrement
+              and su.all_hit_before(pu, edges=empty)  # dropped only when empty
+              and all(su.hit_before(L, nodes=pu, src_edge=e) for e in empty))  # and then always
+    rep.check(ok, "C06.R1", sfi.qual, "for every providing package the schema is removed from its use set and the package record is dropped exactly when that set becomes empty", sfi.loc(), construct="package use counting in _unregister",
               message="TOCSchemas._unregister does not decrement the package's used-schema set / drop the package record exactly when no used schema is left")
-    pd = [norm(v) for k, v in local_defs(su).get("providers", []) if v is not None]
-    rep.check(pd == ["set(self._pkgs._providers[schema_ref])"], "C06.R1", su.qual, "the providers are iterated over a snapshot (the table is modified while packages are dropped)", su.loc(), construct=f"providers = {pd}", message=f"providers is {pd}")
-    pun = P.func(f"{I}.TOCPackages._unregister")
-    g2 = ctx.cfg(pun)
-    pr = [n.idx for n in g2.nodes if n.kind == "stmt" and norm(n.stmt) == "providers.remove(pkg)"]
-    l2 = [n for n in g2.nodes if n.kind == "for" and norm(n.stmt.iter) == "info.plugins[schemas.name]"]
-    rep.check(len(l2) == 1 and bool(pr) and g2.every_path_passes(pr, l2[0].idx, src=l2[0].idx, src_label="iter") and "info = self._pkginfos.pop(pkg)" in norm(pun.node) and "del self._raw[pkg_path]" in norm(pun.node), "C06.R1", pun.qual,
-              "dropping a package removes its record, its info and itself from every provider set", pun.loc(), construct="TOCPackages._unregister", message="TOCPackages._unregister leaves the package in a provider set / keeps its record")
-    t = norm(su.node)
-    ok = "del self._raw[self._schema_path_for(schema_ref)]" in t and "self._schemas.remove(schema_ref)" in t and "self._update_parents_children(schema_ref, None)" in t and "self._pkgs._unregister(pkg)" in t and "if not len(pkg_used)" in t
-    rep.check(ok, "C06.R1", su.qual, "schema record, tables and unused provider packages are removed together", su.loc(), construct="TOCSchemas._unregister", message="TOCSchemas._unregister does not remove the schema group, its table entries and packages no longer used")
+    rep.check(len(lp) == 1, "C06.R1", sfi.qual, "the providers are iterated over a snapshot (the table is modified while packages are dropped)", sfi.loc(), construct="providers snapshot", message="the provider set is iterated while TOCPackages._unregister modifies it (no snapshot)")
+    pfi = P.func(f"{I}.TOCPackages._unregister")
+    pun = F(ctx, pfi)
+    pk = pfi.params[1]
+    l2 = [n for n in pun.g.nodes if n.kind == "for" and pun.x(n.stmt.iter) == f"self._pkginfos.pop({pk}).plugins[schemas.name]" and isinstance(n.stmt.target, ast.Name)]
+    ok = len(l2) == 1
+    if ok:
+        sv = l2[0].stmt.target.id
+        pr = pun.calls(f"self._providers[{sv}].remove({pk})", f"self._providers[{sv}].discard({pk})")
+        drop = pun.deletes(f"self._raw[self._pkginfo_path_for(*{pk})]")
+        ok = bool(pr) and bool(drop) and _loop_always(pun, l2[0].idx, pr) and pun.hit_before(pun.g.exit, nodes=drop) and pun.hit_before(pun.g.exit, nodes=[l2[0].idx])
+    rep.check(ok, "C06.R1", pfi.qual, "dropping a package removes its record, its info and itself from every provider set", pfi.loc(), construct="TOCPackages._unregister", message="TOCPackages._unregister leaves the package in a provider set / keeps its record")
+    a = su.deletes(f"self._raw[self._schema_path_for({sr})]")
+    b_ = su.calls(f"self._schemas.remove({sr})", f"self._schemas.discard({sr})")
+    c_ = su.calls(f"self._update_parents_children({sr}, None)")
+    ok = all((a, b_, c_)) and all(su.hit_before(su.g.exit, nodes=x) for x in (a, b_, c_)) and len(lp) == 1 and su.hit_before(su.g.exit, nodes=[lp[0].idx])
+    rep.check(ok, "C06.R1", sfi.qual, "schema record, tables and unused provider packages are removed together", sfi.loc(), construct="TOCSchemas._unregister", message="TOCSchemas._unregister does not remove the schema group, its table entries and packages no longer used")
+
+
+def _raw_calls(f: "F", method: str, *args) -> list:
+    a = ", ".join(args)
+    return f.calls(*[f"{r}.{method}({a})" for r in RAWG])
 
 
 def r2_node_ops(P, rep, ctx):
     G = f"{W}.MetadorGroup"
     fi = P.func(f"{G}.__delitem__")
-    g = ctx.cfg(fi)
-    dm = [n.idx for n in g.nodes if any(call_attr(c) == "_destroy_meta" for c in g.calls(n.idx))]
+    f = F(ctx, fi)
+    g = f.g
+    nm = fi.params[1]
+    dms = f.call_sites("__n._destroy_meta()") + f.call_sites("__n._destroy_meta(_unlink=True)")
+    dm = [i for i, c, b in dms]
     raw = [n.idx for n in g.nodes if any(isinstance(c.func, ast.Call) and (factory_call_info(P, None, c.func) or ("", ""))[0] == "__delitem__" for c in g.calls(n.idx)) or (n.kind == "stmt" and isinstance(n.stmt, ast.Delete) and any(is_raw_expr(t.value) for t in n.stmt.targets if isinstance(t, ast.Subscript)))]
-    ok = bool(dm) and bool(raw) and all(g.every_path_passes(dm, r) for r in raw) and g.every_path_passes(raw, g.exit)
+    ok = bool(dm) and bool(raw) and f.all_hit_before(raw, nodes=dm) and f.hit_before(g.exit, nodes=raw)
     rep.check(ok, "C06.R2", fi.qual, "metadata of the node (and below) is destroyed before the node itself is deleted", fi.loc(), construct="_destroy_meta before raw delete", message="MetadorGroup.__delitem__ deletes the node without first destroying/unlinking its metadata (dangling TOC links)")
-    rep.check("node = self[name]" in norm(fi.node) and "node._destroy_meta()" in norm(fi.node), "C06.R2", fi.qual, "the destroyed metadata is that of the deleted node", fi.loc(), construct="destroyed node", message="__delitem__ does not destroy the metadata of self[name]")
+    rep.check(bool(dms) and all(f.x(b["__n"]) == f"self[{nm}]" for i, c, b in dms), "C06.R2", fi.qual, "the destroyed metadata is that of the deleted node", fi.loc(), construct="destroyed node", message="__delitem__ does not destroy the metadata of self[name]")
     fi = P.func(f"{G}._destroy_meta")
-    t = norm(fi.node)
-    rep.check("super()._destroy_meta(_unlink=_unlink)" in t and "for child in self.values()" in t and "child._destroy_meta(" in t, "C06.R2", fi.qual, "group metadata destruction covers the node and recurses over all children", fi.loc(), construct="recursive destroy", message="MetadorGroup._destroy_meta does not destroy its own metadata and recurse over all children")
-    dn = P.func(f"{W}.MetadorNode._destroy_meta")
-    rep.check("self.meta._destroy(_unlink=_unlink)" in norm(dn.node), "C06.R2", dn.qual, "node metadata destruction deletes every attached object", dn.loc(), construct="node destroy", message="MetadorNode._destroy_meta does not call meta._destroy")
-    ds = P.func(f"{I}.MetadorMeta._destroy")
-    rep.check("for schema_name in list(self.keys())" in norm(ds.node) and "self._del_raw(schema_name, _unlink=_unlink)" in norm(ds.node), "C06.R2", ds.qual, "_destroy deletes every attached object (iterating a snapshot of the keys)", ds.loc(), construct="_destroy", message="_destroy does not delete all attached objects over a snapshot of keys")
+    f = F(ctx, fi)
+    own = f.calls("super()._destroy_meta(_unlink=_unlink)")
+    loops = [n for n in f.g.nodes if n.kind == "for" and f.x(n.stmt.iter) in ("self.values()", "list(self.values())") and isinstance(n.stmt.target, ast.Name)]
+    ok = bool(own) and len(loops) == 1 and f.hit_before(f.g.exit, nodes=own) and f.hit_before(f.g.exit, nodes=[loops[0].idx])
+    if ok:
+        ch = loops[0].stmt.target.id
+        ok = _loop_always(f, loops[0].idx, f.calls(f"{ch}._destroy_meta(___)"))
+    rep.check(ok, "C06.R2", fi.qual, "group metadata destruction covers the node and recurses over all children", fi.loc(), construct="recursive destroy", message="MetadorGroup._destroy_meta does not destroy its own metadata and recurse over all children")
+    dn = F(ctx, P.func(f"{W}.MetadorNode._destroy_meta"))
+    c_ = dn.calls("self.meta._destroy(_unlink=_unlink)")
+    rep.check(bool(c_) and dn.hit_before(dn.g.exit, nodes=c_), "C06.R2", dn.fi.qual, "node metadata destruction deletes every attached object", dn.fi.loc(), construct="node destroy", message="MetadorNode._destroy_meta does not call meta._destroy")
+    ds = F(ctx, P.func(f"{I}.MetadorMeta._destroy"))
+    loops = [n for n in ds.g.nodes if n.kind == "for" and ds.x(n.stmt.iter) in ("list(self.keys())", "tuple(self.keys())", "list(self)", "sorted(self.keys())", "list(self._objs.keys())", "list(self._objs)") and isinstance(n.stmt.target, ast.Name)]
+    ok = len(loops) == 1 and ds.hit_before(ds.g.exit, nodes=[loops[0].idx]) and _loop_always(ds, loops[0].idx, ds.calls(f"self._del_raw({loops[0].stmt.target.id}, _unlink=_unlink)"))
+    rep.check(ok, "C06.R2", ds.fi.qual, "_destroy deletes every attached object (iterating a snapshot of the keys)", ds.fi.loc(), construct="_destroy", message="_destroy does not delete all attached objects over a snapshot of keys")
     # move
     fi = P.func(f"{G}.move")
-    g = ctx.cfg(fi)
-    raw_move = [n.idx for n in g.nodes if any(call_attr(c) == "move" and is_raw_expr(c.func.value) and [norm(a) for a in c.args] == ["source", "dest"] for c in g.calls(n.idx))]
-    rep_calls = [n.idx for n in g.nodes if any(call_attr(c) == "repair_missing" for c in g.calls(n.idx))]
-    fm = [n.idx for n in g.nodes if any(call_attr(c) == "find_missing" for c in g.calls(n.idx))]
-    tests = [t.idx for t in g.nodes if t.kind == "test" and norm(t.exprs[0]).strip("()") == "meta_base_node := self.__wrapped__.get(meta_base"]
-    ok = bool(raw_move) and bool(rep_calls) and bool(tests) and all(g.every_path_passes(raw_move, r) for r in rep_calls) and all(g.every_path_passes(rep_calls, g.exit, src=t, src_label="T") for t in tests) and g.every_path_passes(tests, g.exit) and all(g.every_path_passes(fm, r) for r in rep_calls)
+    f = F(ctx, fi)
+    g = f.g
+    sp, dp = fi.params[1], fi.params[2]
+    raw_move = _raw_calls(f, "move", sp, dp)
+    reps = f.call_sites("__l.repair_missing(__m, ___)") + f.call_sites("__l.repair_missing(__m)")
+    rep_calls = sorted({i for i, c, b in reps})
+    SRCM = f"self[{sp}].meta._base_dir"
+    DSTM = f"self[{dp}].meta._base_dir"
+    is_ds = f.tests(f"isinstance(self[{dp}], MetadorDataset)")
+    # the node below which links are repaired: the dataset's metadata dir, or the moved group itself
+    fm = f.call_sites("__l.find_missing(__b)")
+    have_meta = [e for n_, c, b in fm for e in f.tests(f"{RAWG[0]}.get(__k)", f"__k in {RAWG[0]}")]
+    ok = bool(raw_move) and bool(rep_calls) and bool(fm) and f.all_hit_before(rep_calls, nodes=raw_move) and f.all_hit_before(rep_calls, nodes=[i for i, c, b in fm]) and bool(have_meta) and f.hit_before(g.exit, nodes=rep_calls, edges=f.neg(have_meta))
     rep.check(ok, "C06.R2", fi.qual, "after the raw move the TOC links of all carried metadata are repaired whenever metadata exists", fi.loc(), construct="relink after move", message="MetadorGroup.move can return without repairing the TOC links of moved metadata")
-    upd = [c for c in local_calls(fi.node) if call_attr(c) == "repair_missing"]
+    upd = [c for i, c, b in reps]
     rep.check(bool(upd) and all(norm(kwarg(c, "update") or ast.Constant(value=None)) == "True" for c in upd), "C06.R2", fi.qual, "move keeps uuids (update=True)", fi.loc(), construct="repair_missing(update=True)", message="move repairs links without update=True: objects get new uuids / duplicate links")
-    mm = [n.idx for n in g.nodes if any(call_attr(c) == "move" and is_raw_expr(c.func.value) and [norm(a) for a in c.args] == ["src_metadir", "dst_metadir"] for c in g.calls(n.idx))]
-    dtest = [t.idx for t in g.nodes if t.kind == "test" and norm(t.exprs[0]) == "isinstance(dst_node, MetadorDataset)"]
-    mtest = [t.idx for t in g.nodes if t.kind == "test" and norm(t.exprs[0]) == "src_metadir in self.__wrapped__"]
-    ok = bool(mm) and bool(dtest) and bool(mtest) and all(any(g.edge_dominates(t, "T", m) for t in dtest) and any(g.edge_dominates(t, "T", m) for t in mtest) for m in mm) and all(g.every_path_passes(mm, g.exit, src=t, src_label="T") for t in mtest)
+    mm = _raw_calls(f, "move", SRCM, DSTM)
+    has_src_meta = f.tests(*[f"{SRCM} in {r}" for r in RAWG])
+    ok = bool(mm) and bool(is_ds) and bool(has_src_meta) and f.all_hit_before(mm, edges=is_ds) and f.all_hit_before(mm, edges=has_src_meta) and all(f.hit_before(g.exit, nodes=mm, edges=f.neg(is_ds), src_edge=e) for e in has_src_meta)
     rep.check(ok, "C06.R2", fi.qual, "a moved dataset's parallel metadata group is moved along when it exists", fi.loc(), construct="dataset metadata move", message="move does not relocate the parallel metadata group of a dataset")
-    rep.check("src_metadir = self[source].meta._base_dir" in norm(fi.node) and all(g.every_path_passes([n.idx for n in g.nodes if n.kind == 'stmt' and 'src_metadir = ' in norm(n.stmt)], r) for r in raw_move), "C06.R2", fi.qual, "the source's metadata dir is determined before the node is moved", fi.loc(), construct="src_metadir before move", message="move computes the source metadata dir after the raw move")
+    srcm_nodes = [n.idx for n in g.nodes if n.kind == "stmt" and isinstance(n.stmt, (ast.Assign, ast.AnnAssign)) and n.stmt.value is not None and norm(n.stmt.value) == SRCM]
+    rep.check(bool(srcm_nodes) and f.all_hit_before(raw_move, nodes=srcm_nodes), "C06.R2", fi.qual, "the source's metadata dir is determined before the node is moved", fi.loc(), construct="src_metadir before move", message="move computes the source metadata dir after the raw move")
     # copy
     fi = P.func(f"{G}.copy")
-    g = ctx.cfg(fi)
-    t = norm(fi.node)
-    ds_t = [x.idx for x in g.nodes if x.kind == "test" and norm(x.exprs[0]) == "src_is_dataset and (not without_meta)"]
-    grp_t = [x.idx for x in g.nodes if x.kind == "test" and norm(x.exprs[0]) == "not src_is_dataset"]
-    wm_t = [x.idx for x in g.nodes if x.kind == "test" and norm(x.exprs[0]) == "without_meta"]
-    reps = [n.idx for n in g.nodes if any(call_attr(c) == "repair_missing" for c in g.calls(n.idx))]
-    cpm = [n.idx for n in g.nodes if any(call_attr(c) == "copy" and is_raw_expr(c.func.value) and [norm(a) for a in c.args] == ["src_meta", "dst_meta"] for c in g.calls(n.idx))]
-    ok = bool(ds_t) and bool(cpm) and all(g.every_path_passes(cpm, g.exit, src=x, src_label="T") for x in ds_t) and all(any(r in g.reach([c]) for r in reps) for c in cpm)
+    f = F(ctx, fi)
+    g = f.g
+    src_ds = f.tests("isinstance(__s, MetadorDataset)")
+    wm = f.tests("without_meta", "kwargs.pop('without_meta', False)")
+    reps_c = f.call_sites("__l.repair_missing(__m, ___)") + f.call_sites("__l.repair_missing(__m)")
+    reps = sorted({i for i, c, b in reps_c})
+    cpm = [i for i, c, b in f.call_sites(f"{RAWG[0]}.copy(__a, __b, ___)") if f.x(b["__a"]).endswith(".meta._base_dir") and f.x(b["__b"]).endswith(".meta._base_dir")]
+    ok = bool(src_ds) and bool(wm) and bool(cpm) and f.all_hit_before(cpm, edges=src_ds) and f.all_hit_before(cpm, edges=f.neg(wm)) and all(any(r in g.reach([c_]) for r in reps) for c_ in cpm)
+    # dataset & metadata wanted  =>  the metadata group is copied and re-registered before returning
+    ok = ok and f.hit_before(g.exit, nodes=cpm, edges=f.neg(src_ds) + wm)
     rep.check(ok, "C06.R2", fi.qual, "copying a dataset with metadata copies its parallel metadata group and registers it", fi.loc(), construct="dataset metadata copy", message="copy of a dataset does not copy + register its metadata group")
-    dest = [n.idx for n in g.nodes if any(call_attr(c) == "_destroy_meta" for c in g.calls(n.idx))]
-    ok = bool(grp_t) and bool(wm_t) and all(g.every_path_passes(dest, g.exit, src=x, src_label="T") for x in wm_t) and all(g.every_path_passes(reps, g.exit, src=x, src_label="F") for x in wm_t) and all(any(g.edge_dominates(y, "T", x) for y in grp_t) for x in wm_t)
+    dest = f.calls("__n._destroy_meta(_unlink=False)")
+    grp_reps = [r for r in reps if not f.hit_before(r, edges=src_ds)]  # reachable for group sources
+    ok = bool(src_ds) and bool(wm) and bool(dest) and bool(grp_reps)
+    # group source: without_meta -> destroyed (no unlink); otherwise -> re-registered
+    ok = ok and f.all_hit_before(dest, edges=wm) and f.all_hit_before(dest, edges=f.neg(src_ds)) and f.hit_before(g.exit, nodes=dest, edges=src_ds + f.neg(wm)) and f.hit_before(g.exit, nodes=reps, edges=src_ds + wm)
     rep.check(ok, "C06.R2", fi.qual, "copying a group either registers the copied metadata (fresh uuids) or destroys it without unlinking", fi.loc(), construct="group metadata after copy", message="copy of a group leaves copied metadata objects unregistered (or registered twice)")
     rp = [c for c in local_calls(fi.node) if call_attr(c) == "repair_missing"]
-    rep.check(all(kwarg(c, "update") is None for c in rp) and len(rp) >= 2, "C06.R2", fi.qual, "copied objects get fresh uuids (no update=True)", fi.loc(), construct="repair after copy", message="copy re-links copied objects with update=True: two objects share one uuid")
-    rm = P.func(f"{I}.TOCLinks.repair_missing")
-    g = ctx.cfg(rm)
-    seq = ["obj.uuid = self.fresh_uuid()", "new_path = obj.to_path()", "self._raw.move(node.name, new_path)", "obj.node = cast(H5DatasetLike, self._raw[new_path])", "self.register(obj)"]
-    ns = [[n.idx for n in g.nodes if n.kind == "stmt" and norm(n.stmt) == s_] for s_ in seq]
-    okseq = all(ns) and all(g.every_path_passes(a, b[0]) for a, b in zip(ns, ns[1:]))
-    rep.check(okseq, "C06.R2", rm.qual, "re-uuid: fresh uuid < new object path < rename < node handle updated < registered", rm.loc(), construct="repair_missing else-branch order", message="repair_missing does not (reserve uuid, rename the object node, refresh obj.node, register) in this order: the new link would point at the old / a missing object path")
-    ut = [t.idx for t in g.nodes if t.kind == "test" and norm(t.exprs[0]) == "update and obj.uuid in self._toc_path"]
-    upd = [n.idx for n in g.nodes if n.kind == "stmt" and norm(n.stmt) == "self.update(obj.uuid, node.name)"]
-    loops = [n for n in g.nodes if n.kind == "for" and norm(n.stmt.iter) == "missing"]
-    ok = bool(ut) and bool(upd) and len(loops) == 1 and all(g.every_path_passes(upd, loops[0].idx, src=t, src_label="T") for t in ut) and all(g.every_path_passes(ns[-1], loops[0].idx, src=t, src_label="F") for t in ut) and g.every_path_passes(ut, loops[0].idx, src=loops[0].idx, src_label="iter")
-    rep.check(ok, "C06.R2", rm.qual, "every missing object is either re-linked (update) or re-registered under a fresh uuid", rm.loc(), construct="repair_missing per-object handling", message="repair_missing can skip an object or handle it on the wrong branch")
+    rep.check(all(kwarg(c, "update") is None or norm(kwarg(c, "update")) == "False" for c in rp) and len(rp) >= 1, "C06.R2", fi.qual, "copied objects get fresh uuids (no update=True)", fi.loc(), construct="repair after copy", message="copy re-links copied objects with update=True: two objects share one uuid")
+    rmfi = P.func(f"{I}.TOCLinks.repair_missing")
+    rm = F(ctx, rmfi)
+    g = rm.g
+    loops = [n for n in g.nodes if n.kind == "for" and rm.x(n.stmt.iter) == rmfi.params[1] and isinstance(n.stmt.target, ast.Name)]
+    okseq = ok2 = False
+    if len(loops) == 1:
+        L = loops[0].idx
+        nd = loops[0].stmt.target.id
+        objs = [(i, v) for i, v, b in rm.stores("__o") if M.match(f"StoredMetadata.from_node({nd})", v) is not None]
+        ov = None
+        for n in g.nodes:
+            if n.kind == "stmt" and isinstance(n.stmt, (ast.Assign, ast.AnnAssign)) and n.stmt.value is not None and M.match(f"StoredMetadata.from_node({nd})", n.stmt.value) is not None:
+                t = n.stmt.targets[0] if isinstance(n.stmt, ast.Assign) else n.stmt.target
+                if isinstance(t, ast.Name):
+                    ov = t.id
+        if ov is not None:
+            s1 = [i for i, v, b in rm.stores(f"{ov}.uuid") if rm.x(v) == "self.fresh_uuid()"]
+            s3 = rm.call_sites(f"self._raw.move({nd}.name, __p)")
+            s3 = [(i, c, b) for i, c, b in s3 if rm.x(b["__p"]) == f"{ov}.to_path()"]
+            s2 = [n.idx for n in g.nodes if n.kind == "stmt" and any(M.match(f"{ov}.to_path()", x) is not None for x in walk_local(n.stmt))]
+            s4 = [i for i, v, b in rm.stores(f"{ov}.node") if any(rm.x(v) == t_ for t_ in (f"cast(H5DatasetLike, self._raw[{ov}.to_path()])", f"self._raw[{ov}.to_path()]"))]
+            s5 = rm.calls(f"self.register({ov})")
+            m3 = [i for i, c, b in s3]
+            okseq = all((s1, s2, m3, s4, s5)) and rm.all_hit_before(s2, nodes=s1, src=L) and rm.all_hit_before(m3, nodes=s2, src=L) and rm.all_hit_before(s4, nodes=m3, src=L) and rm.all_hit_before(s5, nodes=s4, src=L)
+            up = rm.tests(rmfi.params[2])
+            known = rm.tests(f"{ov}.uuid in self._toc_path")
+            upd = rm.calls(f"self.update({ov}.uuid, {nd}.name)")
+            ok2 = (bool(up) and bool(known) and bool(upd) and rm.all_hit_before(upd, edges=up, src=L) and rm.all_hit_before(upd, edges=known, src=L)
+                   and rm.all_hit_before(s5, edges=rm.neg(up) + rm.neg(known), src=L)
+                   and _loop_always(rm, L, upd + s5)
+                   and _loop_always(rm, L, upd, rm.neg(up) + rm.neg(known)) and _loop_always(rm, L, s5, up) and _loop_always(rm, L, s5, known))
+    rep.check(okseq, "C06.R2", rmfi.qual, "re-uuid: fresh uuid < new object path < rename < node handle updated < registered", rmfi.loc(), construct="repair_missing else-branch order", message="repair_missing does not (reserve uuid, rename the object node, refresh obj.node, register) in this order: the new link would point at the old / a missing object path")
+    rep.check(ok2, "C06.R2", rmfi.qual, "every missing object is either re-linked (update) or re-registered under a fresh uuid", rmfi.loc(), construct="repair_missing per-object handling", message="repair_missing can skip an object or handle it on the wrong branch")
     fmf0 = P.func(f"{I}.TOCLinks.find_missing")
-    cm = fmf0.nested.get("collect_missing")
-    if cm is None:
+    cmfi = fmf0.nested.get("collect_missing")
+    if cmfi is None:
         raise AnalysisError("find_missing.collect_missing not found")
-    gcm = ctx.cfg(cm)
-    t1 = [t.idx for t in gcm.nodes if t.kind == "test" and norm(t.exprs[0]) == "not M.is_internal_path(node.name, M.METADOR_META_PREF)"]
-    t2 = [t.idx for t in gcm.nodes if t.kind == "test" and norm(t.exprs[0]) == "M.is_meta_base_path(node.name)"]
-    t3 = [t.idx for t in gcm.nodes if t.kind == "test" and norm(t.exprs[0]) == "not known or collision"]
-    app = [n.idx for n in gcm.nodes if any(call_attr(c) == "append" and norm(c.func.value) == "missing" and norm(c.args[0]) == "node" for c in gcm.calls(n.idx))]
-    ok = bool(t1) and bool(t2) and bool(t3) and bool(app) and all(gcm.edge_dominates(t1[0], "F", a) and gcm.edge_dominates(t2[0], "F", a) and gcm.edge_dominates(t3[0], "T", a) for a in app) and all(gcm.every_path_passes(app, gcm.exit, src=t, src_label="T") for t in t3)
-    rep.check(ok, "C06.R2", cm.qual, "exactly the metadata object nodes whose uuid is unknown or collides are reported as missing", cm.loc(), construct="collect_missing filter", message="find_missing's collector does not report exactly the metadata objects with unknown / colliding uuid")
+    cm = F(ctx, cmfi)
+    nd = cmfi.params[1]
+    internal = cm.tests(f"M.is_internal_path({nd}.name, M.METADOR_META_PREF)")
+    is_base = cm.tests(f"M.is_meta_base_path({nd}.name)")
+    OBJ = f"StoredMetadata.from_node({nd})"
+    known = cm.tests(f"{OBJ}.uuid in self._toc_path")
+    same = cm.tests(f"self.resolve({OBJ}.uuid) == {nd}.name", f"{nd}.name == self.resolve({OBJ}.uuid)")
+    app = cm.calls(f"__m.append({nd})")
+    ok = all((internal, is_base, known, same, app))
+    if ok:
+        # reported: only metadata object nodes (internal, not a base dir) ...
+        ok = cm.all_hit_before(app, edges=internal) and cm.all_hit_before(app, edges=cm.neg(is_base))
+        # ... whose uuid is unknown or resolves elsewhere; and every such node is reported
+        ok = ok and cm.all_hit_before(app, edges=cm.neg(known) + cm.neg(same))
+        ok = ok and cm.hit_before(cm.g.exit, nodes=app, edges=cm.neg(internal) + is_base + same) and cm.hit_before(cm.g.exit, nodes=app, edges=cm.neg(internal) + is_base + known)
+    rep.check(ok, "C06.R2", cmfi.qual, "exactly the metadata object nodes whose uuid is unknown or collides are reported as missing", cmfi.loc(), construct="collect_missing filter", message="find_missing's collector does not report exactly the metadata objects with unknown / colliding uuid")
     from .common import require_total
 
     for fq in (f"{I}.TOCLinks.find_missing", f"{I}.TOCLinks.fresh_uuid", f"{I}.TOCLinks.resolve", f"{I}.StoredMetadata.to_path", f"{I}.StoredMetadata.from_node"):
         require_total(rep, ctx, "C06.R2", P.func(fq))
-    t = norm(rm.node)
-    ok = "if update and obj.uuid in self._toc_path" in t and "self.update(obj.uuid, node.name)" in t and "obj.uuid = self.fresh_uuid()" in t and "self._raw.move(node.name, new_path)" in t and "self.register(obj)" in t
-    rep.check(ok, "C06.R2", rm.qual, "repair: update existing link target, or rename to a fresh uuid and register", rm.loc(), construct="repair_missing", message="repair_missing does not (update link) / (assign fresh uuid, rename node, register)")
-    fmf = P.func(f"{I}.TOCLinks.find_missing")
-    t = norm(fmf.node)
-    ok = "known = obj.uuid in self._toc_path" in t and "collision = known and self.resolve(obj.uuid) != node.name" in t and "if not known or collision" in t and "visititems(collect_missing)" in t
-    rep.check(ok, "C06.R2", fmf.qual, "find_missing reports unknown uuids and uuid collisions below the given group", fmf.loc(), construct="find_missing", message="find_missing does not report objects with unknown or colliding uuids")
+    rep.check(okseq and ok2, "C06.R2", rmfi.qual, "repair: update existing link target, or rename to a fresh uuid and register", rmfi.loc(), construct="repair_missing", message="repair_missing does not (update link) / (assign fresh uuid, rename node, register)")
+    fmf = F(ctx, fmf0)
+    vis = fmf.call_sites("__g.visititems(collect_missing)")
+    rets = [v for _, v in fmf.returns() if v is not None]
+    acc = {norm(b["__m"]) for i, c, b in cm.call_sites(f"__m.append({nd})")}
+    ok = bool(vis) and all(fmf.x(b["__g"]) in (f"self._raw.require_group({fmf0.params[1]}.name)", f"self._raw[{fmf0.params[1]}.name]", fmf0.params[1]) for i, c, b in vis) and len(rets) == 1 and {norm(rets[0])} == acc and fmf.hit_before(fmf.g.exit, nodes=[i for i, c, b in vis])
+    rep.check(ok, "C06.R2", fmf0.qual, "find_missing reports unknown uuids and uuid collisions below the given group", fmf0.loc(), construct="find_missing", message="find_missing does not report objects with unknown or colliding uuids")
 
 
 BOOK_CONSTS = ("METADOR_TOC_PATH", "METADOR_VERSION_PATH", "METADOR_UUID_PATH", "METADOR_PACKAGES_PATH", "METADOR_SCHEMAS_PATH", "METADOR_LINKS_PATH", "METADOR_META_PREF", "METADOR_PREF")
@@ -294,19 +403,27 @@ def r3_namespace_owner(P, rep, ctx, tier):
 
 
 def r4_cleanup(P, rep, ctx):
+    U = "self._toc_path[uuid]"
+    SG = f"self._raw[{U}].parent"
     pairs = [
-        (f"{I}.TOCLinks.unregister", "del self._raw[toc_path]", "len(schema_group)", "del self._raw[schema_group.name]", "F"),
-        (f"{I}.TOCLinks.unregister", "del self._raw[schema_group.name]", "len(link_group.keys())", "del self._raw[link_group.name]", "F"),
-        (f"{I}.TOCSchemas._unregister", "del self._raw[self._schema_path_for(schema_ref)]", "not self._raw.require_group(M.METADOR_SCHEMAS_PATH).keys()", "del self._raw[M.METADOR_SCHEMAS_PATH]", "T"),
-        (f"{I}.TOCPackages._unregister", "del self._raw[pkg_path]", "not self._raw.require_group(M.METADOR_PACKAGES_PATH).keys()", "del self._raw[M.METADOR_PACKAGES_PATH]", "T"),
-        (f"{I}.MetadorMeta._del_raw", "del self._mc.__wrapped__[stored_obj.node.name]", "not self._objs", "del self._mc.__wrapped__[self._base_dir]", "T"),
+        # function, child delete target, patterns on which the parent IS EMPTY, parent delete target
+        (f"{I}.TOCLinks.unregister", f"self._raw[{U}]", [f"not len({SG})", f"not len({SG}.keys())", f"not {SG}.keys()"], f"self._raw[{SG}.name]"),
+        (f"{I}.TOCLinks.unregister", f"self._raw[{SG}.name]", [f"not len({SG}.parent.keys())", f"not len({SG}.parent)", f"not {SG}.parent.keys()"], f"self._raw[{SG}.parent.name]"),
+        (f"{I}.TOCSchemas._unregister", "self._raw[self._schema_path_for(schema_ref)]", ["not self._raw.require_group(M.METADOR_SCHEMAS_PATH).keys()", "not len(self._raw.require_group(M.METADOR_SCHEMAS_PATH).keys())", "not len(self._raw.require_group(M.METADOR_SCHEMAS_PATH))"], "self._raw[M.METADOR_SCHEMAS_PATH]"),
+        (f"{I}.TOCPackages._unregister", "self._raw[self._pkginfo_path_for(*pkg)]", ["not self._raw.require_group(M.METADOR_PACKAGES_PATH).keys()", "not len(self._raw.require_group(M.METADOR_PACKAGES_PATH).keys())", "not len(self._raw.require_group(M.METADOR_PACKAGES_PATH))"], "self._raw[M.METADOR_PACKAGES_PATH]"),
+        (f"{I}.MetadorMeta._del_raw", "self._mc.__wrapped__[self._objs[schema_name].node.name]", ["not self._objs", "not len(self._objs)"], "self._mc.__wrapped__[self._base_dir]"),
     ]
-    for q, child_del, test_txt, parent_del, lab in pairs:
+    for q, child_del, empty_pats, parent_del in pairs:
         fi = P.func(q)
-        g = ctx.cfg(fi)
-        cd = [n.idx for n in g.nodes if n.kind == "stmt" and norm(n.stmt) == child_del]
-        tt = [t.idx for t in g.nodes if t.kind == "test" and norm(t.exprs[0]) == test_txt]
-        pd = [n.idx for n in g.nodes if n.kind == "stmt" and norm(n.stmt) == parent_del]
-        ok = bool(cd) and bool(tt) and bool(pd) and all(g.every_path_passes(tt, g.exit, src=c) for c in cd) and all(g.every_path_passes(pd, g.exit, src=t, src_label=lab) for t in tt) and all(any(g.edge_dominates(t, lab, p) for t in tt) for p in pd)
-        rep.check(ok, "C06.R4", fi.qual, f"after `{child_del[:50]}` the parent is tested for emptiness and removed when empty", fi.loc(), construct=f"cleanup after {child_del}",
-                  message=f"{q}: after `{child_del}` the emptiness test `{test_txt}` / removal `{parent_del}` is not on every path: an empty bookkeeping group is left behind (or a non-empty one removed)")
+        f = F(ctx, fi)
+        g = f.g
+        cd = f.deletes(child_del)
+        empty = f.tests(*empty_pats)
+        pd = f.deletes(parent_del)
+        ok = (bool(cd) and bool(empty) and bool(pd)
+              and all(f.hit_before(g.exit, nodes=f.test_nodes(empty), src=c) for c in cd)  # looked at after the child delete
+              and f.all_hit_before(pd, edges=empty)  # parent removed only when empty
+              and all(f.hit_before(g.exit, nodes=pd, src_edge=e) for e in empty)  # and then always
+              and all(f.hit_before(t, nodes=cd) for t in f.test_nodes(empty)))
+        rep.check(ok, "C06.R4", fi.qual, f"after `del {child_del[:50]}` the parent is tested for emptiness and removed when empty", fi.loc(), construct=f"cleanup after del {child_del}",
+                  message=f"{q}: after `del {child_del}` the emptiness test / removal `del {parent_del}` is not on every path: an empty bookkeeping group is left behind (or a non-empty one removed)")
